@@ -64,6 +64,19 @@ def gen_cases(rng, tier):
             cases.append(["uac%d" % n, "c17", "uac", "se=1800", script, "1", refresher, str(d), "1000", "", str(horizon)]); n += 1
             if refresher == "none":
                 break
+    # the caller refreshes with the library's own re-INVITE (RefreshNeeded::process_default) and the peer answers: every refresh sent
+    # restarts the interval, the next one is asked for before it ends - for several rounds
+    for refresher, d in (("uac", 90), ("unspec", 90), ("uac", 120), ("uac", 1800)):
+        rp = "" if refresher == "unspec" else ";refresher=" + refresher
+        extra = "Supported: timer\r\nSession-Expires: %d%s\r\nContact: <sip:peer@10.9.9.9>\r\n" % (d, rp)
+        acts = ["0:invite", "1000:resp:200:tagA:%s" % hx(extra)]
+        t = 1000
+        for _ in range(4):
+            t += (d - 10) * 1000
+            acts.append("%d:resp2" % (t + 500))
+        horizon = t + (d + 30) * 1000
+        acts.append("%d:wait" % horizon)
+        cases.append(["uacd%d" % n, "c17", "uac", "se=1800;refresh=do", ",".join(acts), "1", refresher, str(d), "1000", "", str(horizon)]); n += 1
     # UAC with received refreshes (re-INVITE from the peer) restarting the timer
     for refresher, d, evs in (("uas", 100, [50000, 120000]), ("uac", 100, [50000, 95000]), ("uas", 60, [69000, 139999]), ("uac", 30, [19999, 39000])):
         rp = ";refresher=" + refresher
@@ -208,6 +221,18 @@ def oracle(case, impl):
     delta = min(delta, U32)
     # last restart of the interval: session start or a received refresh
     marks = [t0] + refreshes
+    if "refresh=do" in case[3]:
+        # refreshes sent by this side and answered by the peer restart the interval as well: a resp2 step of the script counts when
+        # a re-INVITE went out since the previous answer
+        reinv = sorted(set(t for n, t in evs if re.match(r"W:INVITE_[^|]*\|cseq=\d+_INVITE\|branch=[^|]*\|totag=[^-|][^|]*\|", n)))
+        prev = t0
+        for a in case[4].split(","):
+            if a.endswith(":resp2"):
+                t = int(a.split(":")[0])
+                if any(prev < x <= t for x in reinv):
+                    marks.append(t)
+                    prev = t
+        marks.sort()
     fired = [(n, t) for n, t in evs if n.startswith("refresh-needed") or n.startswith("W:BYE_")]
     if mine:
         if any(n.startswith("W:BYE_") for n, _ in fired):
